@@ -282,10 +282,14 @@ def require_all(
     def authenticate(req: falcon.Request) -> AuthContext:
         claims = gate(req)
         if inner is None:
+            # An allow-mode gate also returns claims for a request it could not
+            # verify; such a request proceeds as an anonymous one would, it is
+            # not an authenticated caller.
+            verified = claims.get("verified", "true") == "true"
             return AuthContext(
-                domain=gate.name,
-                authenticated=True,
-                principal=claims.get("proxy"),
+                domain=gate.name if verified else None,
+                authenticated=verified,
+                principal=claims.get("proxy") if verified else None,
                 claims={gate.claims_key: claims},
             )
         ctx = inner(req)
